@@ -291,8 +291,12 @@ func (pk *PrivateKey) parsePrivateKey(data []byte) (err error) {
 		return pk.parseECDSAPrivateKey(data)
 	case PubKeyAlgoEdDSA:
 		return pk.parseEdDSAPrivateKey(data)
+	case PubKeyAlgoECDH:
+		// the secret scalar of an encryption-only (sub)key is not needed to describe the key; rejecting it would make
+		// an unprotected key with such a subkey (GnuPG's default ed25519/cv25519 key exported without passphrase)
+		// unreadable as a whole
+		return nil
 	}
-	// e.g. ECDH: the secret material of encryption-only subkeys is not needed to describe the key
 	return errors.UnsupportedError("private key type: " + strconv.Itoa(int(pk.PublicKey.PubKeyAlgo)))
 }
 
